@@ -67,12 +67,13 @@ def handle : List String → Option String
       let mx ← parseInt? mx
       let perms ← parseNatLL? perms
       withScreen rest (fun s => showRes (wrap (genSegregatingOld mx perms) s))
-  | "gen-pair" :: sub :: anc :: perms :: assign :: rest => do
+  | "gen-pair" :: sub :: anc :: anchor :: perms :: assign :: rest => do
       let sub ← parseInt? sub
       let anc ← parseInt? anc
+      let anchor ← parseIntList? anchor
       let perms ← parseIntLL? perms
       let assign ← parseNamesLL? assign
-      withScreen rest (fun s => showRes (wrap (genPairwise sub anc perms assign) s))
+      withScreen rest (fun s => showRes (wrap (genPairwise sub anc anchor perms assign) s))
   | "sm-fixed" :: k :: choices :: rest => do
       let k ← parseInt? k
       let choices ← parseNatLL? choices
